@@ -165,6 +165,22 @@ def inject(rng, prog, fault):
     return p, exp
 
 
+DORMANT = {
+    # faults inside the body of an instruction macro that is never invoked, or the body of an expression macro
+    # that is never used: nothing of it is expanded or evaluated, the program is well formed
+    "dormant_dup_local_label": ("defi", "unused1", [], [("label", "a"), ("op", "jumpdest", None), ("label", "a"), ("op", "jumpdest", None)]),
+    "dormant_undef_label": ("defi", "unused2", [], [("op", "push1", ("lbl", "nowhere"))]),
+    "dormant_undef_imacro": ("defi", "unused3", [], [("macro", "nomacro", [])]),
+    "dormant_arity": ("defi", "unused4", [], [("macro", "guard", [])]),
+    "dormant_div_zero": ("defi", "unused5", [], [("op", "push1", G.climb([("num", 1), "/", ("num", 0)]))]),
+    "dormant_undef_variable": ("defi", "unused6", ["q"], [("op", "push1", ("var", "zz"))]),
+    "dormant_emacro_undef_label": ("defe", "unused7", [], ("lbl", "nowhere")),
+    "dormant_emacro_unknown_macro": ("defe", "unused8", [], ("macro", "nofun", [])),
+    "dormant_emacro_unbound_variable": ("defe", "unused9", [], ("var", "zz")),
+    "dormant_label_like_outer": ("defi", "unused10", [], [("label", "start"), ("op", "jumpdest", None)]),
+}
+
+
 def oracle(c, ans):
     k = answer_kind(ans)
     if k in ("panic", "crash"):
@@ -193,6 +209,11 @@ def check(run):
     reps = 14 if run.tier == "thorough" else 5
     for _ in range(40 if run.tier == "thorough" else 8):
         cases.append(mk_case(base_program(rng), "well-formed", expect=None, nfaults=0))
+    for name, d in DORMANT.items():
+        for _ in range(2 if run.tier != "thorough" else 5):
+            p = base_program(rng)
+            p.insert(rng.randrange(0, len(p) + 1), d)
+            cases.append(mk_case(p, name, expect=None, nfaults=0))
     for f in FAULTS:
         for _ in range(reps):
             p, exp = inject(rng, base_program(rng), f)
@@ -204,5 +225,5 @@ def check(run):
         p, e2 = inject(rng, p, f2)
         cases.append(mk_case(p, f"{f1}+{f2}", expect=e1, nfaults=2))
     return asmfam.run_family(run, "C13", cases, oracle,
-                             "a well-formed base program (backward+forward reference in one operand, instruction macro with local label and parameter, expression macro, definitions before or after use) with 0, 1 or 2 injected faults out of 33 kinds (incl. surplus arguments, out-of-range %push inside and outside macros, an undeclared label argument spelled like a macro-local label) at a random position; oracle: well-formed => ok, one fault => the matching error kind naming the offender; distinct = distinct sources",
+                             "a well-formed base program (backward+forward reference in one operand, instruction macro with local label and parameter, expression macro, definitions before or after use) with 0, 1 or 2 injected faults out of 33 kinds (incl. surplus arguments, out-of-range %push inside and outside macros, an undeclared label argument spelled like a macro-local label) at a random position; 10 kinds of DORMANT faults (inside macros that are never invoked or used: still well formed); oracle: well-formed => ok, one fault => the matching error kind naming the offender; distinct = distinct sources",
                              "well-formedness and error kinds")
